@@ -35,7 +35,11 @@ const MUST_REACH: &[&str] = &[
 ];
 
 fn drivers() -> Vec<DriverType> {
-    vec![DriverType::Poll, DriverType::IoUring]
+    match std::env::var("C05_DRIVER").ok().as_deref() {
+        Some("poll") => vec![DriverType::Poll],
+        Some("iour") => vec![DriverType::IoUring],
+        _ => vec![DriverType::Poll, DriverType::IoUring],
+    }
 }
 
 fn parse_driver(s: &str) -> DriverType {
@@ -137,10 +141,40 @@ fn main() {
     if let Some(p) = &args.replay {
         replay(p, grace);
     }
+    if let Ok(n) = std::env::var("C05_BENCH") {
+        let n: usize = n.parse().unwrap();
+        for d in drivers() {
+            for threads in [1usize, 4, 16] {
+                let t0 = Instant::now();
+                std::thread::scope(|s| {
+                    for _ in 0..threads {
+                        s.spawn(|| {
+                            for _ in 0..n {
+                                world::bench_runtime(d);
+                            }
+                        });
+                    }
+                });
+                println!("{} threads={threads}: {:?} per runtime (wall/total)", driver_name(d), t0.elapsed() / (n * threads) as u32);
+            }
+        }
+        return;
+    }
     vcore::quiet_panics();
     let report = Report::new("C05", tier);
+    let envnum = |k: &str| std::env::var(k).ok().and_then(|s| s.parse::<usize>().ok());
+    // a fresh io_uring ring costs milliseconds (setup + teardown are serialised inside the kernel),
+    // a fresh epoll instance microseconds: the polling driver - whose cancellation logic lives in
+    // user space (per-descriptor queues) - gets the deeper bound
+    let depth_poll = envnum("C05_DEPTH").or(envnum("C05_DEPTH_POLL")).unwrap_or(tier.pick(5, 7));
+    let depth_iour = envnum("C05_DEPTH").or(envnum("C05_DEPTH_IOUR")).unwrap_or(tier.pick(4, 6));
+    let deeper_bonus = envnum("C05_BONUS").unwrap_or(tier.pick(1, 0));
+    let depth_of = |d: DriverType, sc: &Scenario| {
+        if d == DriverType::Poll { depth_poll + sc.deeper as usize * deeper_bonus } else { depth_iour }
+    };
     let bounds = Bounds {
-        depth: std::env::var("C05_DEPTH").ok().and_then(|s| s.parse().ok()).unwrap_or(tier.pick(6, 8)),
+        depth: depth_poll.max(depth_iour),
+        deeper_bonus,
         max_ready: tier.pick(1, 2),
         max_timeout: 1,
         max_reap: tier.pick(1, 1),
@@ -188,6 +222,9 @@ fn main() {
             "ops": sc.ops.iter().map(|o| format!("{}@fd{}/tok{}", o.kind.name(), o.fd, o.tok)).collect::<Vec<_>>()}));
         for (seq, choices) in seqs {
             for d in drivers() {
+                if seq.len() > depth_of(d, sc) {
+                    continue;
+                }
                 items.push(Item { sc, driver: d, seq: seq.clone(), choices: choices.clone() });
             }
         }
@@ -202,7 +239,7 @@ fn main() {
     report.extra(
         "bounds",
         json!({
-            "depth": bounds.depth, "max_ready_steps_per_fd": bounds.max_ready, "max_timeout_steps": bounds.max_timeout,
+            "depth_poll": depth_poll, "depth_iour": depth_iour, "extra_depth_poll_for_recv2_and_recv+pollonce": deeper_bonus, "max_ready_steps_per_fd": bounds.max_ready, "max_timeout_steps": bounds.max_timeout,
             "max_reap_steps": bounds.max_reap, "max_cancel_again_token": bounds.max_again,
             "grace_ms": grace.as_millis() as u64, "drivers": ["poll", "iour"],
             "recv_buffer_capacity": world::CAP, "bytes_per_ready": world::BURST,
